@@ -206,10 +206,7 @@ def has_dangling_implicit_state(spec, of):
 
 def known_sigs_for(spec, flags, q=None):
     """Root causes that are listed as *findings* (not the fixed ones), as predicates over the spec."""
-    k = []
-    if 'jac_dense' in flags and ('unit_factor' in flags):
-        k.append('F3')
-    return k
+    return []
 
 
 def tag(known, sig):
@@ -237,7 +234,7 @@ def strategy(tier):
 
 def units(tier, seed):
     n = 16 if tier == 'quick' else 32
-    per = 60 if tier == 'quick' else 2500
+    per = 40 if tier == 'quick' else 2500
     return [{'kind': 'random', 'n': per, 'seed': core.shard_seed(seed, ID, i)} for i in range(n)]
 
 
